@@ -87,7 +87,8 @@ NewConn(p, dir, src, dst) ==
 
 InitSrv == [serving |-> FALSE, closed |-> FALSE, done |-> FALSE, reg |-> {},
             lock |-> "", servePc |-> "none", serveCall |-> "", lisErr |-> FALSE,
-            stopping |-> "", backlog |-> <<>>, accPc |-> "off", accConn |-> ""]
+            stopping |-> "", backlog |-> <<>>, accPc |-> "off", accConn |-> "",
+            lisGated |-> FALSE]     \* the listener's Close blocks (application-controlled)
 
 CbNames == {"GetCapabilities", "OnOpenMessage", "OnEstablished", "Update", "OnClose"}
 
@@ -390,7 +391,8 @@ FsmStep(p, d) ==
        [] op.op = "gate" ->
             /\ op.n \in gh.released[p]
             /\ setF([f EXCEPT !.todo = rest])
-            /\ UNCHANGED <<out, conn, dial, gh>>
+            /\ out' = Emit(out, Ev("cbx", p, "", op.n.n, op.n.k, <<>>, ""))     \* the held callback returns
+            /\ UNCHANGED <<conn, dial, gh>>
   /\ UNCHANGED <<cfg, srv, calls, pm, now>>
 
 ---------------------------------------------------------------------------
@@ -803,8 +805,8 @@ ServeSeesLisErr ==
   /\ srv' = [srv EXCEPT !.servePc = "closingLis", !.lisErr = TRUE, !.accPc = "off"]
   /\ UNCHANGED <<cfg, calls, pm, fsm, conn, dial, now, out, gh>>
 
-ServeLisClosed ==      \* closeListeners: the accept loop has finished
-  /\ srv.servePc = "closingLis" /\ srv.accPc \in {"idle", "off", "failed"}
+ServeLisClosed ==      \* closeListeners: the listeners are closed and the accept loop has finished
+  /\ srv.servePc = "closingLis" /\ srv.accPc \in {"idle", "off", "failed"} /\ ~srv.lisGated
   /\ srv' = [srv EXCEPT !.servePc = "stopLock", !.accPc = "off"]
   /\ UNCHANGED <<cfg, calls, pm, fsm, conn, dial, now, out, gh>>
 
@@ -839,7 +841,8 @@ ServeRet ==            \* Serve returns to its caller (concurrently with Close r
   /\ UNCHANGED <<cfg, pm, fsm, conn, dial, now, gh>>
 
 AcceptTake ==
-  /\ srv.accPc = "idle" /\ srv.servePc = "running" /\ srv.backlog # <<>>
+  /\ srv.accPc = "idle" /\ srv.backlog # <<>>
+  /\ srv.servePc = "running" \/ (srv.servePc = "closingLis" /\ srv.lisGated)   \* still listening
   /\ LET c == Head(srv.backlog) IN
      /\ srv' = [srv EXCEPT !.accPc = "lock", !.accConn = c, !.backlog = Tail(@)]
      /\ conn' = [conn EXCEPT ![c].held = TRUE]
@@ -955,6 +958,10 @@ EnvReset(c) ==
 EnvRelease(p, n) ==      \* the application lets a held plugin callback return
   /\ gh' = [gh EXCEPT !.released[p] = @ \cup {n}]
   /\ UNCHANGED <<cfg, srv, calls, pm, fsm, conn, dial, now, out>>
+
+EnvLisGate(g) ==
+  /\ srv' = [srv EXCEPT !.lisGated = g]
+  /\ UNCHANGED <<cfg, calls, pm, fsm, conn, dial, now, out, gh>>
 
 EnvLisFail ==
   /\ srv.accPc = "idle" /\ srv.servePc = "running"
